@@ -17,7 +17,7 @@ EVAL_COUNTER = "comparisons"
 REQUIRED = {"quick": dict({"comparisons": 2500, "single_row_comparisons": 600, "fit_final_forward_compared": 300,
                            "train_predict_equals_labels": 350},
                           **{"fit:" + e: 15 for e in gen.ESTIMATORS if e not in gen.NONPARAMETRIC}),
-            "thorough": {"comparisons": 80000}}
+            "thorough": {"comparisons": 40000}}
 SHARD_TIMEOUT = {"quick": 1200, "thorough": 7000}
 INDUCTIVE = [e for e in gen.ESTIMATORS if e not in gen.NONPARAMETRIC]
 
